@@ -169,7 +169,7 @@ pub fn run(ctx: &Ctx) -> PropResult {
         res.inconclusive = Some("C13 must run in the default-feature build (microscpi without `std`)".into());
         return res;
     }
-    let mut all: Vec<&'static IfaceDesc> = vec![ctx.iface("mini"), ctx.iface("pzoo"), ctx.iface("qdev2"), ctx.iface("qdev10")];
+    let mut all: Vec<&'static IfaceDesc> = ctx.built(&["mini", "pzoo", "qdev2", "qdev10"]);
     all.extend(ctx.random_ifaces());
     let shards = 64usize;
     let cases = ctx.scaled(if ctx.thorough { 150_000 } else { 10_000 });
